@@ -32,17 +32,20 @@ type Scenario struct {
 }
 
 type Strategy struct {
-	Kind    string `json:"kind"` // dfs | pct | random | replay | solo
-	Bound   int    `json:"bound"`
-	Depth   int    `json:"depth"`
-	Runs    int    `json:"runs"`
-	Max     int    `json:"max"`
-	Seed    int64  `json:"seed"`
-	Choices []int  `json:"choices"`
-	Writer  int    `json:"writer"`
-	Reader  int    `json:"reader"`
-	ParkAt  int    `json:"parkat"` // solo replay: park the writer after this many of its steps (-1 = enumerate all)
-	OwnMax  int    `json:"ownmax"` // solo: reader's own-step budget
+	Kind      string `json:"kind"`      // dfs | pct | random | replay | solo
+	StoreOnly bool   `json:"storeonly"` // dfs: preempt only before store-type operations
+	Rotate    bool   `json:"rotate"`    // dfs: split the budget over the rotations of the thread priority order
+	Reduce    bool   `json:"reduce"`    // dfs: no preemption before operations on addresses only one thread touched
+	Bound     int    `json:"bound"`
+	Depth     int    `json:"depth"`
+	Runs      int    `json:"runs"`
+	Max       int    `json:"max"`
+	Seed      int64  `json:"seed"`
+	Choices   []int  `json:"choices"`
+	Writer    int    `json:"writer"`
+	Reader    int    `json:"reader"`
+	ParkAt    int    `json:"parkat"` // solo replay: park the writer after this many of its steps (-1 = enumerate all)
+	OwnMax    int    `json:"ownmax"` // solo: reader's own-step budget
 }
 
 // Rec records the API-level history of one run. Exactly one goroutine runs at
@@ -489,22 +492,37 @@ func runScenario(sc *Scenario, tw *TraceWriter, trBase *int) *ConcStats {
 	vsched.WantSites = true
 	switch s.Kind {
 	case "dfs":
-		d := vsched.NewDFS(s.Bound)
 		max := s.Max
 		if max == 0 {
 			max = 100000
 		}
-		for {
-			rec, run := runOnce(sc, d.Picker(), true, nil)
-			emit(rec, run, -1)
-			if !d.Next() {
-				st.Exhausted = true
-				break
+		n := len(sc.Threads)
+		rots := 1
+		if s.Rotate {
+			rots = n
+		}
+		exhausted := true
+		for rot := 0; rot < rots; rot++ {
+			d := vsched.NewDFS(s.Bound)
+			d.StoreOnly = s.StoreOnly
+			d.Reduce = s.Reduce
+			for i := 0; i < n; i++ {
+				d.Perm = append(d.Perm, (i+rot)%n)
 			}
-			if st.Runs >= max {
-				break
+			budget := st.Runs + max/rots
+			for {
+				rec, run := runOnce(sc, d.Picker(), true, nil)
+				emit(rec, run, -1)
+				if !d.Next() {
+					break
+				}
+				if st.Runs >= budget {
+					exhausted = false
+					break
+				}
 			}
 		}
+		st.Exhausted = exhausted
 	case "pct", "random":
 		rng := rand.New(rand.NewSource(s.Seed))
 		est := 50
